@@ -220,6 +220,10 @@ class SqlalchemyRender:
                 # keep the division operator of the statement: sqlalchemy's own "/" is always true division
                 # (it renders "a / (b + 0.0)" or a cast), which changes the result of integer division
                 col = arg0.op('/', precedence=sa.sql.operators._PRECEDENCE[sa.sql.operators.truediv])(arg1)
+            elif op == '+':
+                # keep the operator of the statement: sqlalchemy's own "+" becomes string concatenation
+                # ("||", concat()) when an operand is a string (a + '5', CAST(a AS CHAR) + 1)
+                col = sa.sql.elements.BinaryExpression(arg0, arg1, sa.sql.operators.add)
             elif method is not None:
                 sa_op = getattr(arg0, method)
 
